@@ -216,6 +216,9 @@ func (c *Ctx) WdGuardAny(fnName string, sel Sel, alts ...[]string) bool {
 				break
 			}
 		}
+		if !hit && guardedByPaths(in.Parent(), parsed, ins) {
+			hit = true
+		}
 		if !hit {
 			c.Fail(rule, construct, InstrPos(in), fmt.Sprintf("site `%s` is not dominated by any of the alternatives; facts here: {%s}", DescribeInstr(in), factStrings(fs)))
 			return false
